@@ -633,10 +633,13 @@ theorem pptx_front_text_example :
 
 def mkChapter (p : ChapterPart) : Chapter := ⟨p.1, p.2.1, p.2.2.1, p.2.2.2⟩
 
+/-- the reader's chapter list is the spine with later repetitions of an already listed
+resource removed (`spineFirsts`, restated after c53b79e: see `Props/C18.lean`), resolved and
+looked up -/
 theorem epub_reader_follows_declaration (a : Archive) (x : Docs) (base : Str) (manifest : List (Str × Str))
     (spine : List Str) (h : epubDeclared (lookup a) x = some (base, manifest, spine)) :
     epubReader a x =
-      (let parts := spine.zipIdx.filterMap (epubSpecPart a base manifest)
+      (let parts := (spineFirsts base manifest spine).filterMap (epubSpecPart a base manifest)
        if parts = [] then none else some (parts.map mkChapter)) := by
   unfold epubReader
   rw [parts_follow_declaration_epub a x base manifest spine h]
@@ -646,7 +649,7 @@ theorem epub_reader_follows_declaration (a : Archive) (x : Docs) (base : Str) (m
 theorem front_page_count_epub (a : Archive) (x : Docs) (base : Str) (manifest : List (Str × Str))
     (spine : List Str) (n : Nat) (h : epubDeclared (lookup a) x = some (base, manifest, spine))
     (hc : frontCountEpub a x = some n) :
-    n = spine.zipIdx.countP (fun e => (epubSpecPart a base manifest e).isSome) := by
+    n = (spineFirsts base manifest spine).countP (fun e => (epubSpecPart a base manifest e).isSome) := by
   unfold frontCountEpub at hc
   rw [epub_reader_follows_declaration a x base manifest spine h] at hc
   simp only at hc
@@ -662,13 +665,14 @@ def chapterSegment (h : HtmlViews) (mode : Int) (c : Chapter) : Option Str :=
   | none => none
   | some t => if t = [] then none else some t
 
-/-- **front_text_epub** — `tabula.Open(f).Text()` is the text of the chapters in spine order
+/-- **front_text_epub** — `tabula.Open(f).Text()` is the text of the chapters in spine order,
+each listed resource once at its first position (`spineFirsts`; restated after c53b79e)
 (hrefs resolved against the package document and percent-decoded, unreadable entries
 dropped), blank-line separated; chapters without text contribute nothing. -/
 theorem front_text_epub (hv : HtmlViews) (a : Archive) (x : Docs) (o : FrontOpts) (base : Str)
     (manifest : List (Str × Str)) (spine : List Str) (t : Str)
     (h : epubDeclared (lookup a) x = some (base, manifest, spine)) (ht : frontTextEpub hv a x o = some t) :
-    t = joinWith sNL2 (((spine.zipIdx.filterMap (epubSpecPart a base manifest)).map mkChapter).filterMap
+    t = joinWith sNL2 ((((spineFirsts base manifest spine).filterMap (epubSpecPart a base manifest)).map mkChapter).filterMap
           (chapterSegment hv 0)) := by
   unfold frontTextEpub at ht
   rw [epub_reader_follows_declaration a x base manifest spine h] at ht
